@@ -48,7 +48,7 @@ def BOUNDS(tier):
 
 def REQUIRED_COVER(tier):
     return {'dag:shape', 'dag:family:kchain2', 'dag:family:kchain4', 'dag:family:ladder', 'dag:family:diamond', 'dag:family:dense',
-            'boc:header', 'boc:header2', 'boc:descriptor', 'boc:refidx', 'dict:label', 'tl:word', 'tl:tower'}
+            'boc:header', 'boc:header2', 'boc:descriptor', 'boc:refidx', 'dict:label', 'dict:tower', 'tl:word', 'tl:tower'}
 
 
 FIELD_VALUES = [0, 1, 2, 255, 256, 65535, 1 << 24, 1 << 31, (1 << 32) - 1]
@@ -62,6 +62,13 @@ def dag_budget(n, e):
 
 def parser_budget(length):
     return min(400 * (length + 16), 300000)
+
+
+def parser_mem_budget(length):
+    """peak bytes allocated while parsing `length` input bytes.  Measured on the current code: <= 50 bytes per input byte
+    (main-net block: 450 KB for 9 882 bytes; small inputs: ~10 KB).  An amplification driven by a length field
+    (a 2^20-bit label from a 130-byte dictionary) is megabytes."""
+    return 262144 + 512 * length
 
 
 # ------------------------------------------------------------------------------------------ (a)
@@ -312,14 +319,20 @@ def boc_mutations(data, layout):
 def run_parser(rec, tag, label, thunk, length, fn, args, key):
     budget = parser_budget(length)
     rec.trans()
-    st, res, exc, exceeded = steps.measure(thunk, budget)
+    st, peak, res, exc, exceeded = steps.measure_mem(thunk, budget)
     rec.trace()
     rec.case(tag)
     rec.covered(tag)
     if exceeded:
         rec.violation(f'{key}:budget', f'{label}: input of {length} bytes needed more than {budget} steps (work driven by a field value, not by the input length)', fn, args)
         rec.outcome('EXCEEDED')
+    elif peak > parser_mem_budget(length):
+        rec.violation(f'{key}:memory', f'{label}: input of {length} bytes made the parser allocate {peak} bytes (budget {parser_mem_budget(length)}): data built from a field value, '
+                      f'not from the input (work hidden inside single operations: {st} steps)', fn, args)
+        rec.outcome('EXCEEDED-MEM')
     else:
+        mm = rec.notes.get('parser_max_peak_bytes_per_byte', 0)
+        rec.notes['parser_max_peak_bytes_per_byte'] = max(mm, round(peak / (length + 16), 1))
         rec.outcome('raised' if exc is not None else 'returned')
         m = rec.notes.get('parser_max_steps_per_byte', 0)
         rec.notes['parser_max_steps_per_byte'] = max(m, round(st / (length + 16), 1))
@@ -378,6 +391,69 @@ def dict_cases():
                 out.append((f'same-fork:m={m}:n={n_}', RC.RCell('111' + (format(n_, f'0{kl}b') if kl else ''), (leaf, leaf)), m))
     # deep tree-shaped (not shared) comb: key length 1023 with forks at each of the first 40 bits
     return out
+
+
+TOWER_KINDS = ('same1', 'same0', 'long', 'short')
+TOWER_M = (1, 4, 32, 256, 1023)
+
+
+def dict_tower(m, kind, d):
+    """a chain of d dictionary fork cells whose edge label CLAIMS more key bits than remain: the adversary follows the
+    parser down - at every level the length field (as wide as a parser that does not check `n <= m` would read it) holds
+    its maximum.  A conforming parser rejects the first cell; one that goes on works with a negative / growing
+    remaining length.  -> (root RCell, number of cells, total bytes)"""
+    levels = []
+    cur = m
+    for _ in range(d):
+        kl = abs(cur).bit_length()
+        if kind.startswith('same'):
+            n = (1 << kl) - 1
+            bits = '11' + kind[-1] + (format(n, f'0{kl}b') if kl else '')
+        elif kind == 'long':
+            n = min((1 << kl) - 1, 1023 - 2 - kl)
+            bits = '10' + (format(n, f'0{kl}b') if kl else '') + '1' * n
+        else:
+            n = min(abs(cur) + 1, 500)
+            bits = '0' + '1' * n + '0' + '1' * n
+        levels.append(bits)
+        cur = cur - n - 1
+    leaf = RC.RCell('0' * 8)
+    node = leaf
+    for bits in reversed(levels):
+        node = RC.RCell(bits, (node, leaf))
+    total = sum(len(RC.RCell(b).data_bytes()) + 4 for b in levels) + 3
+    return node, d + 1, total
+
+
+def shard_dict_tower(rec, kind, hi):
+    for m in TOWER_M:
+        dead = set()
+        for d in range(1, hi + 1):
+            case_dict_tower(rec, m, kind, d, dead)
+    rec.sample({'dict_tower': kind, 'key_lens': list(TOWER_M), 'depths': f'1..{hi}'})
+
+
+def case_dict_tower(rec, m, kind, d, dead=None):
+    from pytoniq_core.boc import Cell
+    from pytoniq_core.boc.hashmap import HashMap
+    from pytoniq_core.boc.hashmap.parse import parse_hashmap, parse_hashmap_aug
+    rc, n, length = dict_tower(m, kind, d)
+    cell = to_lib(rc)
+    rec.state(('dict-tower', m, kind, d))
+    rec.nontriv(('dict-tower', m, kind, d))
+    args = {'m': m, 'kind': kind, 'd': d}
+    take = lambda s: s.load_bits(min(4, s.remaining_bits))
+    for key, thunk in (('dict:plain', lambda: parse_hashmap(cell.begin_parse(), m)),
+                       ('dict:HashMap.parse', lambda: HashMap.parse(cell.begin_parse(), m)),
+                       ('dict:aug', lambda: parse_hashmap_aug(cell.begin_parse(), m, take, take)),
+                       ('dict:load_dict', lambda: to_lib(RC.RCell('1', (rc,))).begin_parse().load_dict(m))):
+        if dead is not None and key in dead:
+            continue            # reported at a smaller depth of this tower; deeper ones only cost more
+        before = len(rec.violations)
+        run_parser(rec, 'dict:tower', f'dictionary tower ({kind} labels claiming more than the remaining key length {m}, {d} levels, {n} cells) {key}',
+                   thunk, length, 'case_dict_tower', args, key)
+        if dead is not None and len(rec.violations) > before:
+            dead.add(key)
 
 
 def shard_dict(rec, part, parts):
@@ -455,6 +531,8 @@ def shards(tier, seed):
         out.append({'fn': 'shard_boc', 'args': {'bi': bi}, 'prio': 2})
     for p in range(4):
         out.append({'fn': 'shard_dict', 'args': {'part': p, 'parts': 4}})
+    for kind in TOWER_KINDS:
+        out.append({'fn': 'shard_dict_tower', 'args': {'kind': kind, 'hi': 20 if tier == 'quick' else 24}})
     for p in range(8):
         out.append({'fn': 'shard_tl', 'args': {'part': p, 'parts': 8}, 'prio': 1})
     return out
